@@ -33,6 +33,10 @@ impl PrecedenceDecider for MysqlQueryBuilder {
         inner: &SimpleExpr,
         outer_oper: &Oper,
     ) -> bool {
+        // MySQL's LIKE takes a simple_expr as its pattern: `a LIKE b + c` is read as `(a LIKE b) + c`
+        if outer_oper.is_like() && matches!(inner, SimpleExpr::Binary(_, _, _)) {
+            return false;
+        }
         common_inner_expr_well_known_greater_precedence(inner, outer_oper)
     }
 }
